@@ -87,4 +87,22 @@ share has since been cut to 1 in 6; that configuration has NOT been timed yet.
 Quiet machine (load < 30, 2026-09-22 afternoon), after the fix phase: quick 27 s warm / 62-97 s with a cold proof build;
 thorough (14,566 cases, real SIGKILL for 1 scenario in 6, leanchecker) 3 min 17 s.  Both tiers are within their targets there;
 the figures above were measured at load average 40-150.
+
+ROUND-2 SEED (retrieveCompressed prepares only "top-level" entries, by string prefix without a trailing slash) was MISSED by the
+check as it stood (exit 0): every retrieve ran into an EMPTIED output directory, no output names shared a string prefix, the model's
+retrieve returned the archive's entries without a destination, and no fact pinned the per-entry ensureRetrieveReady.  Added:
+act R/<tree> (retrieve over stale outputs of an earlier build: longer files, swapped kinds, extra files), output sets with shared
+prefixes (d + d.txt, gen + gen_hdrs/x.h, report + report.txt, d + d2/x + dx, d + d=, outputs in sub-directories), both modes;
+model restoreEntry / restoreAll / retrieveCInto (per entry: ready = mkdir parent + unlink, then mkdir / symlink / open WITHOUT
+truncation), theorem C12_roundtrip_compressed_over_stale (any stale destination; invariant in Lemmas/DirCacheRestore.lean) which
+needs prep_fact, witness C12_witness_unprepared_restore; facts retrievePreparesEveryEntry (top-level statement of the header loop,
+its result is the destination of all three arms), retrieveOpenTruncates, retrieveReadySeq, retrieveReadyReturnsBeforeUnlink,
+plainRetrievePreparesEveryOut.  Result:
+  /repo: exit 0, 26/26, 2008 cases, 0 disagreements.
+  VERIF_REPO=/tmp/confirm/C12 (the seed): exit 1, 24/26 (C12_facts_ok, prep_fact), 20 disagreements, VIOLATION classes
+    stale-output-survives-retrieve (`c 64,642e747874 S/-/64:d:-,642f78:f:7831,642e747874:f:6e6577 R/<same paths, longer files>`: d.txt
+    comes back as "new" + the old tail), miss-after-complete-store-over-stale-outputs, roundtrip-miss-after-complete-store
+    (`... R/64:f:..,642e747874:d:-,642e7478742f696e6e6572:f:..`: stale directory d.txt is not unlinked, the open fails, a just-stored key misses).
+  the C02 round-2 seed (ensureRetrieveReady returns before the unlink for names with a slash, compressed): exit 1, 24/26, VIOLATION class
+    stale-output-survives-retrieve (`c 67656e,67656e5f686472732f782e68 S/-/... R/...`: gen_hdrs/x.h keeps the stale tail).
 """
